@@ -2,6 +2,7 @@ package props
 
 import (
 	"go/types"
+	"sort"
 	"strings"
 
 	"verif/checker/internal/an"
@@ -151,7 +152,7 @@ func c12(c *Ctx) {
 	r.Rule("R12.C", "Session ↔ file ↔ MTProto field coverage (4 fields x 4 functions) and encoder/decoder pairing", 18)
 	r.Rule("R12.E", "no dropped error on the Load path; ENOENT → NotFound; NewMTProto continues only on nil / NotFound", 8)
 	r.Rule("R12.M", "cache hit guarded by ModTime().Equal(lastEdited) and cached != nil; cached and lastEdited assigned together", 2)
-	r.Rule("R12.D", "the directory tested by Store is never the empty first result of filepath.Split", 1)
+	r.Rule("R12.D", "the directory tested by Store is never the empty first result of filepath.Split, and every file-system probe on the Store/Load paths follows symbolic links the way the write and the read do", 3)
 	r.Rule("R12.R", "makeAuthKey is called only on the !encrypted edge; encrypted is initialised from 'a session was loaded'", 2)
 	tr := an.NewTracer()
 
@@ -438,7 +439,7 @@ func c12(c *Ctx) {
 	if f := c.fn("R12.D", load.SessPkg, "*genericFileSessionLoader", "Store"); f != nil {
 		n := 0
 		for _, cs := range an.Calls(f) {
-			if cs.Name != load.DryPkg+".FileExists" && cs.Name != load.DryPkg+".FileIsDir" && cs.Name != "os.Stat" {
+			if cs.Name != load.DryPkg+".FileExists" && cs.Name != load.DryPkg+".FileIsDir" && cs.Name != "os.Stat" && cs.Name != "os.Lstat" {
 				continue
 			}
 			n++
@@ -472,6 +473,44 @@ func c12(c *Ctx) {
 		}
 	}
 
+	// "every path whose directory exists": the directory exists when the operating system resolves it, links
+	// included - which is how WriteFile and ReadFile will resolve it. A probe that looks at the link itself
+	// (Lstat, Readlink, directory listings) refuses a linked directory the write would have accepted.
+	{
+		var entries []*ssa.Function
+		for _, n := range []string{"Store", "Load"} {
+			if f := c.P.Func(load.SessPkg, "*genericFileSessionLoader", n); f != nil {
+				entries = append(entries, f)
+			}
+		}
+		g := c.Graph()
+		reach := g.Reachable(entries, func(f *ssa.Function) bool { return c.P.InRepoOrDry(f) })
+		var fns []*ssa.Function
+		for f := range reach {
+			if c.P.InRepoOrDry(f) && len(f.Blocks) > 0 {
+				fns = append(fns, f)
+			}
+		}
+		sort.Slice(fns, func(i, j int) bool { return fns[i].String() < fns[j].String() })
+		noFollow := map[string]bool{"os.Lstat": true, "os.Readlink": true, "os.ReadDir": true, "io/ioutil.ReadDir": true, "path/filepath.Walk": true, "path/filepath.WalkDir": true, "(*os.File).Readdir": true, "(*os.File).ReadDir": true}
+		follow := map[string]bool{"os.Stat": true, "(*os.File).Stat": true}
+		probes := 0
+		for _, f := range fns {
+			k := 0
+			for _, cs := range an.Calls(f) {
+				if !noFollow[cs.Name] && !follow[cs.Name] {
+					continue
+				}
+				probes++
+				k++
+				r.Check(follow[cs.Name], "R12.D", sprintf("probe-follows-links:%s/%s#%d", an.ShortName(f), shortCallee(cs.Name), k), c.pos(cs.Pos()), cs.Name+" examines the path without following a symbolic link: a session directory that is a link to a directory exists for the write and the read, yet this probe reports something else")
+			}
+		}
+		if probes == 0 {
+			r.Hold("R12.D", "probe-follows-links:none", "", "no file-system probe on the Store/Load paths")
+		}
+	}
+
 	// ---- R12.W ----------------------------------------------------------------------------------
 	r.Rule("R12.W", "Store replaces the whole file (WriteFile / Create / OpenFile with O_TRUNC / write-then-rename) and every exit that may report success passes the write: the last store wins byte for byte", 2)
 	if f := c.P.Func(load.SessPkg, "*genericFileSessionLoader", "Store"); f != nil {
@@ -496,30 +535,7 @@ func c12(c *Ctx) {
 				_ = oTrunc
 			}
 		}
-		// a Store that reports success has written: every exit that may return nil passes a write call
-		var writes []ssa.Instruction
-		for _, cs := range an.Calls(f) {
-			switch cs.Name {
-			case "io/ioutil.WriteFile", "os.WriteFile", "os.Create", "os.Rename", "os.OpenFile", "(*os.File).Write":
-				writes = append(writes, cs.Instr)
-			}
-		}
-		nExit := 0
-		for _, b := range f.Blocks {
-			ret, ok := b.Instrs[len(b.Instrs)-1].(*ssa.Return)
-			if !ok || len(ret.Results) != 1 || an.NonNilError(ret.Results[0], b) {
-				continue
-			}
-			nExit++
-			passed := false
-			for _, w := range writes {
-				if an.InstrDominates(w, ret) {
-					passed = true
-				}
-			}
-			r.Check(passed, "R12.W", sprintf("store:success-means-written#%d", nExit), c.pos(ret.Pos()),
-				"an exit of Store that may report success is reached without any write of the file: the caller believes the session is saved (a skipped write keeps whatever the file held)")
-		}
+		c.storeSuccessMeansWritten("R12.W", f)
 		switch verdict {
 		case "ok":
 			r.Hold("R12.W", "store:whole-file-write", c.pos(f.Pos()), "the session bytes are written with "+detail)
@@ -575,5 +591,37 @@ func c12(c *Ctx) {
 			}
 		}
 		r.Check(ok, "R12.R", "resume:encrypted-iff-session-loaded", c.pos(f.Pos()), "encrypted is initialised with `loaded session != nil`")
+	}
+}
+
+// storeSuccessMeansWritten: a Store that reports success has written - every exit of the file loader's Store
+// that may return nil passes a write call.
+func (c *Ctx) storeSuccessMeansWritten(rule string, f *ssa.Function) {
+	r := c.R
+	var writes []ssa.Instruction
+	for _, cs := range an.Calls(f) {
+		switch cs.Name {
+		case "io/ioutil.WriteFile", "os.WriteFile", "os.Create", "os.Rename", "os.OpenFile", "(*os.File).Write":
+			writes = append(writes, cs.Instr)
+		}
+	}
+	nExit := 0
+	for _, b := range f.Blocks {
+		ret, ok := b.Instrs[len(b.Instrs)-1].(*ssa.Return)
+		if !ok || len(ret.Results) != 1 || an.NonNilError(ret.Results[0], b) {
+			continue
+		}
+		nExit++
+		passed := false
+		for _, w := range writes {
+			if an.InstrDominates(w, ret) {
+				passed = true
+			}
+		}
+		r.Check(passed, rule, sprintf("store:success-means-written#%d", nExit), c.pos(ret.Pos()),
+			"an exit of Store that may report success is reached without any write of the file: the caller believes the session is saved (a skipped write keeps whatever the file held)")
+	}
+	if nExit == 0 {
+		r.Undecide(rule, "store:success-means-written", c.pos(f.Pos()), "Store has no exit that may report success")
 	}
 }
